@@ -122,6 +122,37 @@ def run(ctx):
                         okx, detail = False, f"parks {sym_str(a)[:80]}"
             chk.ob("C11.a", f"{dc.path} [what is parked]", okx, "parked value is the untouched buffer or buf.split_off(n) (the unwritten tail) on the partial-write arm" if okx else f"the value put back into wbuf is not the unwritten part of the buffer: {detail} (e.g. split_to(n) re-sends the bytes already written and drops the tail)", dc.loc())
     writers = sorted({(c.fn.parent.path if c.fn.parent else c.fn.path) for f in t.fns for c in f.body.calls() if c.is_("Write::write", "Write::write_all", "Write::write_vectored") and "TcpStream" in repr(c.t.get("gargs", "")) + (c.t.get("self_ty") or "")})
+    rt = t.fn(f"{T}::run_transport")
+    if rt is not None:
+        dcs = [c for c in nonforeign_calls(rt) if c.is_(f"{T}::drive_connection")]
+        bad = []
+        def same_queue(dd, c):
+            """the receiver of this is_empty()/len() is the client's message queue handed to drive_connection"""
+            dd = strip_sym(dd)
+            if not (isinstance(dd, tuple) and dd and dd[0] == "call" and dd[2]):
+                return False
+            q = repr(strip_sym(sym_through(Sym(c.fn).operand(c.args[2]), "Deref::deref", "DerefMut::deref_mut")))
+            return repr(strip_sym(sym_through(dd[2][0], "Deref::deref", "DerefMut::deref_mut"))) == q
+
+        for c in dcs:
+            g = gates(c.body, c.bb)
+            on_msgs = [1 for dd, lab in g if lab in (True, False) and sym_is_call(dd, "VecDeque<T, A>::is_empty", "VecDeque<T, A>::len", "is_empty") and same_queue(dd, c)]
+            on_wbuf = [1 for dd, lab in g if "wbuf" in sym_str(dd).lower() or sym_is_call(dd, "Option<T>::is_none", "Option<T>::is_some")]
+            if on_msgs and not on_wbuf:
+                bad.append(c)
+        # and no skip of the drive inside the per-client event branch that looks at the queue alone
+        skips = []
+        rb = rt.body
+        for bb_, dd, t_t, f_t in bool_switches(rb):
+            dd = strip_sym(dd)
+            if sym_is_call(dd, "VecDeque<T, A>::is_empty") and dcs and any(same_queue(dd, c) for c in dcs if c.fn is rt):
+                # the `true` edge (queue empty) must still reach a drive_connection before the loop continues
+                nxt = [c.bb for c in rt.body.calls() if c.is_("Iterator::next")]
+                reach = rb.reachable(t_t, cut={c.bb for c in dcs if c.fn is rt})
+                if any(n_ in reach for n_ in nxt) and any(c.bb in rb.reachable(f_t) for c in dcs if c.fn is rt) and not any(c.bb in rb.reachable(t_t, cut=set(nxt)) for c in dcs if c.fn is rt):
+                    skips.append(bb_)
+        okd = bool(dcs) and not bad and not skips
+        chk.ob("C11.a", f"{rt.path} [events always drive the connection]", okd, f"{len(dcs)} drive_connection sites; none is skipped because the message queue alone is empty (a parked remainder lives in wbuf)" if okd else "a client event can be ignored when its message queue is empty although a partially written frame is parked in wbuf: the frame is never completed", rt.loc())
     ok = writers == [f"{T}::drive_connection"]
     chk.ob("C11.a", "client sockets [who-may-write]", ok, "only drive_connection writes to client sockets" if ok else f"client sockets are written from {writers}", "metrics-exporter-tcp/src/lib.rs")
 
